@@ -17,6 +17,7 @@ import (
 	mrand "math/rand"
 	"os"
 	"path/filepath"
+	"strconv"
 	"sync"
 	"time"
 
@@ -186,7 +187,26 @@ var Epoch = time.Date(2024, 3, 10, 12, 0, 0, 0, time.UTC)
 var now = Epoch
 
 // SetNow moves the library clock, the dsig clock and the jwt clock together.
+// Zone, when set, is the location in which the library clock reports its instants (same instants, other wall-clock
+// fields). Workers get it from VERIF_CLOCK_ZONE ("-08:00", "+05:30").
+var Zone *time.Location
+
+func init() {
+	if z := os.Getenv("VERIF_CLOCK_ZONE"); len(z) == 6 {
+		h, _ := strconv.Atoi(z[1:3])
+		m, _ := strconv.Atoi(z[4:6])
+		off := h*3600 + m*60
+		if z[0] == '-' {
+			off = -off
+		}
+		Zone = time.FixedZone("verif"+z, off)
+	}
+}
+
 func SetNow(t time.Time) {
+	if Zone != nil {
+		t = t.In(Zone)
+	}
 	now = t
 	saml.TimeNow = func() time.Time { return now }
 	saml.Clock = dsig.NewFakeClockAt(now)
@@ -291,4 +311,17 @@ func CertVariant(kp *KeyPair, mod func(t *x509.Certificate)) string {
 		panic(err)
 	}
 	return base64.StdEncoding.EncodeToString(der)
+}
+
+// VariantPair is base's private key under another self-signed certificate (see CertVariant).
+func VariantPair(base *KeyPair, name string, mod func(t *x509.Certificate)) *KeyPair {
+	der, err := base64.StdEncoding.DecodeString(CertVariant(base, mod))
+	if err != nil {
+		panic(err)
+	}
+	cert, err := x509.ParseCertificate(der)
+	if err != nil {
+		panic(err)
+	}
+	return &KeyPair{Name: name, Key: base.Key, Cert: cert}
 }
